@@ -15,6 +15,9 @@
 package server
 
 import (
+	"errors"
+	"math"
+
 	"github.com/cybergarage/go-redis/redis"
 )
 
@@ -313,6 +316,10 @@ func (server *Server) ZIncBy(conn *redis.Conn, key string, inc float64, member s
 	_, zset, err := db.GetZSetRecord(key)
 	if err != nil {
 		return nil, err
+	}
+	if score, ok := zset.Score(member); ok && math.IsNaN(score+inc) {
+		// inf + -inf: a score must stay a number, or the ordering of the set is lost.
+		return nil, errors.New("resulting score is not a number (NaN)")
 	}
 	return redis.NewFloatMessage(zset.IncBy(inc, member)), nil
 }
